@@ -1246,6 +1246,9 @@ class Interp(object):
                 self.text("")
             else:
                 self.text(self.print_text(self.ev(s[1])))
+        elif k == "printm":
+            # print with comma-separated arguments: joined by a space
+            self.text(" ".join(self.print_text(self.ev(x)) for x in s[1]))
         elif k == "printn":
             self.text(self.print_text(self.ev(s[1])), newline=False)
         elif k == "dump":
@@ -1491,6 +1494,8 @@ class Interp(object):
         names = [self.ev(n) for n in name_exprs]
         if not all(isinstance(n, str) for n in names) or not all(e[0] == "oos" for e in ems):
             raise Unmodelled("lashed emit operands")
+        if all(v is ABSENT for _, v in vals):
+            return      # nothing has been accumulated (e.g. an empty stream): nothing to emit
         if any(v is ABSENT or not isinstance(v, MMap) for _, v in vals):
             raise Unmodelled("lashed emit of absent/non-map")
         ds = [self.uniform_depth(v) for _, v in vals]
@@ -1693,6 +1698,8 @@ def render_stmt(s, ind=0):
         return pad + "continue;"
     if k == "print":
         return pad + ("print;" if s[1] is None else "print " + render_expr(s[1]) + ";")
+    if k == "printm":
+        return pad + "print " + ", ".join(render_expr(x) for x in s[1]) + ";"
     if k == "printn":
         return pad + "printn " + render_expr(s[1]) + ";"
     if k == "dump":
